@@ -12,6 +12,8 @@ from .common import cfg_of, is_method_call, get_kw, facts_at, find_stmt_node, na
 from . import tr
 from ..tracer import Tracer
 
+from .common import Guard  # noqa: E402
+
 PROP = 'C12'
 DECIDED = [
     'R1: per-build objects do not escape into process-global state: every write to interpreter / class / module-level state made by evaluation code (eval.py, fstr.py, eval_context.py) is reported unless it is the documented configuration API; R1b: the globals wrapper (which captures the build\'s context) is installed on every path before the code runs and removed before the namespace can be cached; symbols are copied per context.',
@@ -402,14 +404,16 @@ def r7r8(repo, run):
 
 
 def check(repo, run, tier):
-    r7r8(repo, run)
-    r1(repo, run)
-    r1b(repo, run)
-    r2(repo, run)
-    r3(repo, run)
-    r4(repo, run)
-    r5(repo, run)
-    r6(repo, run)
+    g = Guard()
+    g(r7r8, repo, run)
+    g(r1, repo, run)
+    g(r1b, repo, run)
+    g(r2, repo, run)
+    g(r3, repo, run)
+    g(r4, repo, run)
+    g(r5, repo, run)
+    g(r6, repo, run)
+    g.done()
 
 
 def mutants(repo):
